@@ -46,4 +46,10 @@ GoSize(e, n) == "BYTES_LENGTH_" \o Upper(Flat(e) \o n)
 
 (* output file base name: the schema FILE's base name plus _bp *)
 OutBase(fileBase) == fileBase \o "_bp"
+
+(* the schema file's base name from the file name as written: the name split at its dots; only the LAST  *)
+(* part is the extension (os.path.splitext), a name without a dot has none                               *)
+RECURSIVE JoinDots(_)
+JoinDots(parts) == IF Len(parts) = 1 THEN parts[1] ELSE parts[1] \o "." \o JoinDots(Tail(parts))
+FileBaseOf(parts) == IF Len(parts) >= 2 THEN JoinDots(SubSeq(parts, 1, Len(parts) - 1)) ELSE parts[1]
 =============================================================================
